@@ -729,20 +729,25 @@ def andxOk (andx : Bool) (env : Env) : Bool :=
     | some (.ns [c, r, o]) => c < 256 && r < 256 && o < 65536
     | _ => false)
 
-/-- C04 "internally consistent" -/
+/-- C04 "internally consistent": a condition on the field *values* (they fit their slots, lengths and counts agree with
+    their buffers, nested values are in their domain, the blocks fit their count fields).  Where Marshal puts the
+    bytes is not among them: a program that writes a field ahead of the parameter block (`MState.head`) is judged on
+    the same assignments as any other — the fragment predicates exclude it, the round-trip oracle exhibits it
+    (`knownRtKind`: `field-ahead-of-blocks`). -/
 def consistent (C : Codecs) (c : Cmd) (env : Env) : Bool :=
   andxOk c.isAndX env &&
   match runM C c env with
   | .ok s =>
     intsFit s.env c.marshal && relationsHold C s.env s.P.length 0 c.unmarshal &&
     s.P.length % 2 == 0 && wordCountOf c.isAndX s.P ≤ 255 && s.D.length ≤ 65535 &&
-    (s.P.length > 0 || s.D.length > 0 || c.fields.isEmpty) && s.head.isEmpty
+    (s.P.length > 0 || s.D.length > 0 || c.fields.isEmpty)
   | _ => false
 
 /-! known C04 findings, decided on the extracted programs (not on the failing input):
     `andx-not-consumed`: an AndX command whose Unmarshal does not consume the two AndX words its Marshal
     put first (no instance on this tree since fixes/C04-andx-consumed.diff; kept so that a command losing
-    the stanza is named for what it is); `field-not-marshalled`: a declared field no marshal
+    the stanza is named for what it is); `field-ahead-of-blocks`: a field marshalled into the command bytes ahead of
+    the parameter block instead of into one of the two blocks; `field-not-marshalled`: a declared field no marshal
     statement emits; … -/
 mutual
 def emittedStmt : MStmt → List String
@@ -783,11 +788,12 @@ def resetBeforeTest : List UStmt → List String
   | _ :: r => resetBeforeTest r
 
 inductive RtFinding
-  | andxNotConsumed | fieldNotMarshalled | fieldNotUnmarshalled | readsWholeBuffer | conditionalField | fixedEntrySize
+  | andxNotConsumed | fieldAheadOfBlocks | fieldNotMarshalled | fieldNotUnmarshalled | readsWholeBuffer | conditionalField | fixedEntrySize
   deriving DecidableEq, Repr, Inhabited
 
 def RtFinding.key : RtFinding → String
   | .andxNotConsumed => "andx-not-consumed"
+  | .fieldAheadOfBlocks => "field-ahead-of-blocks"
   | .fieldNotMarshalled => "field-not-marshalled"
   | .fieldNotUnmarshalled => "field-not-unmarshalled"
   | .readsWholeBuffer => "reads-whole-buffer"
@@ -798,6 +804,9 @@ def knownRtKind (c : Cmd) : Option RtFinding :=
   let em := emittedDeep c.marshal
   let rd := readDeep c.unmarshal
   if c.isAndX && (splitAndX c.unmarshal).isNone then some .andxNotConsumed
+  -- a marshalled field appended to the command bytes themselves, ahead of the parameter block, while Unmarshal looks
+  -- for it in the data block: the receiver takes the field's first byte for the word count (WriteRequest)
+  else if c.marshal.any (fun s => match s with | .subHead .. => true | _ => false) then some .fieldAheadOfBlocks
   else if (c.fields.map (·.1)).any (fun f => !em.contains f) then some .fieldNotMarshalled
   else if em.any (fun f => !rd.contains f) then some .fieldNotUnmarshalled
   -- two or more nested values each decoded from the start of the block instead of from `offset`
